@@ -58,8 +58,8 @@ class AsyncRecorder(AsyncEventProcessor):
 
 
 def graph_node_names(prog):
-    """<<node name, name of the graph it wraps>> for every nested-graph node."""
-    return sorted({(n["name"], n["sub"]["name"]) for _, n in IR.all_nodes(prog) if n["kind"] == "graph"})
+    """<<node name, name of the graph it wraps, "1" if the node maps over its inputs else "0">> for every nested-graph node."""
+    return sorted({(n["name"], n["sub"]["name"], "1" if n.get("map_over") else "0") for _, n in IR.all_nodes(prog) if n["kind"] == "graph"})
 
 
 def validate_streams(traces, workers=4, procs=None, timeout=900):
